@@ -9,10 +9,11 @@
 // and tied kernels / the models of the callees.  Rules (everything else is `untranslatable`, never guessed):
 //
 //   - parameters of integer / float64 type are parameters; parameters of pointer, struct or interface type (`image`,
-//     `transform`, the receiver) are OBJECTS: they are not passed, a method call `obj.M(args)` on them is the field `obj_M`
+//     `transform`, the receiver) are OBJECTS: they are not passed, a method call `obj.M(args)` on them is the field `<Type>_M`
 //     applied to the integer / float / slice arguments — a function of its arguments only (the function must not write them);
 //   - `x, _ := pkg.F(args)` / `x := pkg.F(args)` with a pointer result creates a LOCAL OBJECT `x : S` (`env.F args`); a
-//     statement `x.M(args)` on a local object is the state transformer `env.x_M x args : S`;
+//     statement `x.M(args)` on a local object is the state transformer `env.<Type>_M x args : S` (fields are named after the
+//     receiver's TYPE, so renaming a variable keeps the generated text; one field must not stand for two different objects);
 //   - a call that receives a slice-typed local may write it: a statement `F(…, xs, …)` / `obj.M(…, xs, …)` REBINDS every slice
 //     argument (the field returns the new slices after the Go results), `e := F(…, xs)` with an `error` result yields
 //     `(e ≠ nil : Bool, xs')`; arguments that are objects are dropped (the field is closed over them);
@@ -59,6 +60,7 @@ type kfinCtx struct {
 	depth    int // loop nesting
 	usesS    bool
 	single   bool // the function returns one object (no error): `Res S`
+	fieldObj map[string]types.Object // method field -> the object it is called on
 }
 
 func (c *kfinCtx) fail(f string, a ...interface{}) error { return fmt.Errorf(f, a...) }
@@ -135,7 +137,24 @@ func (c *kfinCtx) envField(name, typ string) error {
 	return nil
 }
 
-// callee: name of the environment field of a call, whether the receiver is a local object, and the receiver's name
+// objTypeName: the name of the (pointer-to-)named type of an object expression
+func (c *kfinCtx) objTypeName(e ast.Expr) string {
+	t := c.p.TypesInfo.TypeOf(e)
+	if t == nil {
+		return ""
+	}
+	if pt, ok := t.(*types.Pointer); ok {
+		t = pt.Elem()
+	}
+	if nt, ok := t.(*types.Named); ok {
+		return nt.Obj().Name()
+	}
+	return ""
+}
+
+// callee: name of the environment field of a call, whether the receiver is a local object, and the receiver's name.
+// Methods are named `<ReceiverType>_<Method>` (not after the variable: renaming a local keeps the generated text); one field
+// name must not stand for two different objects.
 func (c *kfinCtx) callee(call *ast.CallExpr) (field string, localRecv string, err error) {
 	switch f := call.Fun.(type) {
 	case *ast.Ident:
@@ -147,11 +166,25 @@ func (c *kfinCtx) callee(call *ast.CallExpr) (field string, localRecv string, er
 			if _, isPkg := c.p.TypesInfo.Uses[id].(*types.PkgName); isPkg {
 				return f.Sel.Name, "", nil
 			}
+			tn := c.objTypeName(id)
+			if tn == "" {
+				return "", "", c.fail("receiver %s has no named type", id.Name)
+			}
+			name := tn + "_" + f.Sel.Name
+			obj := c.p.TypesInfo.Uses[id]
+			if c.fieldObj == nil {
+				c.fieldObj = map[string]types.Object{}
+			}
+			if old, ok := c.fieldObj[name]; ok && old != obj {
+				return "", "", c.fail("method %s called on two different objects", name)
+			}
 			if c.objs[id.Name] {
-				return id.Name + "_" + f.Sel.Name, "", nil
+				c.fieldObj[name] = obj
+				return name, "", nil
 			}
 			if c.locals[id.Name] == "S" {
-				return id.Name + "_" + f.Sel.Name, id.Name, nil
+				c.fieldObj[name] = obj
+				return name, id.Name, nil
 			}
 		}
 	}
@@ -430,6 +463,9 @@ func (c *kfinCtx) objExpr(ex ast.Expr, pre *[]kfinBind) (string, error) {
 					return "", err
 				}
 				field, recvArg = sel.Sel.Name, r
+				if tn := c.objTypeName(inner); tn != "" {
+					field = tn + "_" + sel.Sel.Name
+				}
 			}
 		}
 		if field == "" {
